@@ -61,7 +61,9 @@ func init() {
 // names are the caller's names, whichever constituent produced it.
 func runMountRenameErrs(r *Rng, n int) {
 	cands := candidatePaths(nsNames, 2)
-	cands = append(cands, "c", "c/a", "c/b", "c/ab/a", "c/nodir/a", "a/nodir/b", "ab/b/a", "ab/b/nodir/a", "nodir/a")
+	cands = append(cands, "c", "c/a", "c/b", "c/ab/a", "c/nodir/a", "a/nodir/b", "ab/b/a", "ab/b/nodir/a", "nodir/a",
+		// p is a mount FS mounted inside the mount FS, with a mount point q of its own
+		"p/x", "p/y", "p/q/a", "p/q/y", "p/q/nodir/y", "p/nodir/y", "p/x/y", "p/q/a/y")
 	for k := 0; k < n; k++ {
 		root, m1, m2 := newMem(), newMem(), newMem()
 		_ = hackpadfs.Mkdir(root, "a", 0o755)
@@ -71,6 +73,13 @@ func runMountRenameErrs(r *Rng, n int) {
 		_ = hackpadfs.WriteFullFile(m1, "a", []byte{2}, 0o644)
 		_ = hackpadfs.Mkdir(m1, "ab", 0o755)
 		_ = hackpadfs.WriteFullFile(m2, "a", []byte{3}, 0o644)
+		_ = hackpadfs.Mkdir(root, "p", 0o755)
+		innerRoot, innerQ := newMem(), newMem()
+		_ = hackpadfs.WriteFullFile(innerRoot, "x", []byte{4}, 0o644)
+		_ = hackpadfs.Mkdir(innerRoot, "q", 0o755)
+		_ = hackpadfs.WriteFullFile(innerQ, "a", []byte{5}, 0o644)
+		innerM, _ := mount.NewFS(innerRoot)
+		_ = innerM.AddMount("q", innerQ)
 		m, _ := mount.NewFS(root)
 		c := &Case{ID: c05NextID, Kind: "mountrename", Trivial: true}
 		c05NextID++
@@ -79,7 +88,7 @@ func runMountRenameErrs(r *Rng, n int) {
 		for _, mp := range []struct {
 			p  string
 			fs hackpadfs.FS
-		}{{"a", m1}, {"ab/b", m2}, {"c", m1}} {
+		}{{"a", m1}, {"ab/b", m2}, {"c", m1}, {"p", innerM}} {
 			if err := m.AddMount(mp.p, mp.fs); err != nil {
 				setup = fmt.Sprintf("AddMount(%q): %v", mp.p, err)
 			}
@@ -99,9 +108,9 @@ func runMountRenameErrs(r *Rng, n int) {
 			ce := canonErr(err)
 			switch {
 			case ce.Kind != "L":
-				c.fail(fmt.Sprintf("mountrename (a and c are the same file system mounted twice, ab/b another): Rename(%q, %q) failed with %s, not a *LinkError", o, nw, ce), "mountrename:type:"+ce.Kind)
+				c.fail(fmt.Sprintf("mountrename (a and c are the same file system mounted twice, ab/b another, p a mount FS with a mount point q): Rename(%q, %q) failed with %s, not a *LinkError", o, nw, ce), "mountrename:type:"+ce.Kind)
 			case ce.Old != o || ce.New != nw:
-				c.fail(fmt.Sprintf("mountrename (a and c are the same file system mounted twice, ab/b another): Rename(%q, %q) failed with %s: the names are not the caller's", o, nw, ce), "mountrename:path:differs")
+				c.fail(fmt.Sprintf("mountrename (a and c are the same file system mounted twice, ab/b another, p a mount FS with a mount point q): Rename(%q, %q) failed with %s: the names are not the caller's", o, nw, ce), "mountrename:path:differs")
 			}
 		}
 		emit(c)
